@@ -1127,6 +1127,7 @@ def unique(seq, full=None):
             oops = list(unique - set(range(_min,_max)))
             msg = "x=%s not in %s <= x < %s" % (oops[-1],_min,_max)
         full = _type
+        if full is int: _max -= 1 #NOTE: is min <= x < max, as checked above
     else: # full is a list of all possible values
         ok = unique.issubset(full)
         if not ok:
